@@ -41,18 +41,20 @@ META = {
         "constructors preserves WF: PROVED = Operation.create, Block(...), Region(...), Builder.create_block; the operands "
         "and successors setters, OpOperands/OpSuccessors.__setitem__ (any index, code after fix f198beb), "
         "SSAValue.replace_all_uses_with / replace_uses_with_if / erase and the PatternRewriter versions; Block.insert_arg / "
-        "erase_arg and PatternRewriter.insert_block_argument / erase_block_argument; Block.insert_op_after / insert_op_before / "
+        "erase_arg and PatternRewriter.insert_block_argument / erase_block_argument, Rewriter.replace_value_with_new_type; Block.insert_op_after / insert_op_before / "
         "add_op / add_ops / insert_ops_before / insert_ops_after / detach_op, Operation.detach, Rewriter.insert_op; "
         "Region.add_block / insert_block_before / insert_block_after / insert_block (lists of any length), Rewriter.insert_block, "
         "Region.detach_block (block or index), Region.move_blocks / move_blocks_before, Rewriter.inline_region / "
-        "move_region_contents_to_new_regions; Operation.add_region / detach_region (region or index); and Operation.erase / "
-        "Block.erase_op / Rewriter.erase_op restricted to operations WITHOUT regions. C01_history: every finite history of "
+        "move_region_contents_to_new_regions; Operation.add_region / detach_region (region or index); Operation.erase / "
+        "Block.erase_op / Rewriter.erase_op (for an operation without regions, and for an operation with any nested tree of "
+        "regions under the hypothesis that every node of the tree that the erase marks is live); Rewriter.replace_op / "
+        "PatternRewriter.replace restricted to a replaced operation WITHOUT regions. C01_history: every finite history of "
         "these calls on live arguments, none raising, keeps the invariant (WF + an auxiliary 'parent pointers name allocated "
         "ids' clause needed by creation), in particular every such history from the empty heap; refutation witnesses for the "
         "two repaired defects (old code) and for the three classes of raising calls that leave partial mutations. "
-        "PARTIAL -- NOT PROVED, covered only by the tie: erase of an operation with regions, Block.erase, Region.erase_block, "
-        "Region.erase, public drop_all_references, Block.split_before, Rewriter.replace_op, PatternRewriter.replace, "
-        "Rewriter.replace_value_with_new_type, Rewriter.inline_block. The tie: model and real code run in lock-step on "
+        "PARTIAL -- NOT PROVED (9 constructors), covered only by the tie: Block.erase, Region.erase_block (block / index), "
+        "Region.erase, public drop_all_references (op / block / region), Block.split_before, Rewriter.inline_block; also "
+        "replace_op / PatternRewriter.replace of an operation with regions. The tie: model and real code run in lock-step on "
         "generated histories, every heap record that changes is compared after every call, and the proved-sound checker wf_b "
         "is evaluated on the model state and compared with an independent whole-tree oracle on the real objects after every call."),
     "level_note": (
@@ -70,7 +72,7 @@ META = {
         "and code but a failure of only these clauses is reported in the evidence, not as a property violation."),
 }
 COQ_TARGETS = ["C01/Enc.vo", "C01/ProofsWfb.vo", "C01/ProofsOperands.vo", "C01/ProofsRauw.vo", "C01/ProofsSetOperands.vo", "C01/ProofsSetSuccessors.vo", "C01/ProofsOps.vo", "C01/ProofsBlocks.vo",
-               "C01/ProofsOpRegions.vo", "C01/ProofsMove.vo", "C01/ProofsOpLists.vo", "C01/ProofsBlockLists.vo", "C01/ProofsArgs.vo", "C01/ProofsCreate.vo", "C01/ProofsInv.vo", "C01/ProofsErase.vo", "C01/ProofsReplaceType.vo", "C01/ProofsHistory.vo",
+               "C01/ProofsOpRegions.vo", "C01/ProofsMove.vo", "C01/ProofsOpLists.vo", "C01/ProofsBlockLists.vo", "C01/ProofsArgs.vo", "C01/ProofsCreate.vo", "C01/ProofsInv.vo", "C01/ProofsErase.vo", "C01/ProofsReplaceType.vo", "C01/ProofsReplaceOp.vo", "C01/ProofsHistory.vo",
                "C01/ProofsDemo.vo", "Props/C01.vo"]
 REQ = ["C01.Model", "C01.Spec", "C01.Enc"]
 ASSUMPTIONS = [
